@@ -180,7 +180,7 @@ class CoWorld:
         t.digest()
         return t
 
-    def checkout(self, target, force=False, relink=False, prompt="absent"):
+    def checkout(self, target, force=False, relink=False, prompt="absent", sp="plain"):
         from dvc_data.hashfile.checkout import CheckoutError, LinkError, PromptError, checkout
 
         asked = []
@@ -190,7 +190,11 @@ class CoWorld:
             return prompt == "accepts"
 
         try:
-            r = checkout(self.path, self.fs, self.target_obj(target), self.cache, force=force, relink=relink,
+            # the caller's spelling: a trailing separator only where a directory is (or is to be) at the path
+            # (a path that is to become a FILE cannot be written with one)
+            dirish = target.get("kind") != "file" and (os.path.isdir(self.path) or (target.get("kind") == "tree" and not os.path.lexists(self.path)))
+            spelled = self.path + os.sep if sp == "slash" and dirish else self.path
+            r = checkout(spelled, self.fs, self.target_obj(target), self.cache, force=force, relink=relink,
                          state=self.state, prompt=None if prompt == "absent" else _prompt, quiet=True)
             res = {"kind": "ok", "ret": {None: "none", True: "true", False: "false"}.get(r, str(r))}
         except PromptError as exc:
